@@ -11,10 +11,11 @@ package common
 //@   property C02 C04 C05
 //@   replay common_friendlyerror@internal/adapter/proxy/core : errorsAs(err, "net.Error") ; errorsIs(err, context.Canceled) ; errorsIs(err, context.DeadlineExceeded) ; errorsIs(err, io.EOF)
 //@   ensures (err == nil) == (res == nil)
-//@   uses operr_is_neterr as_val_is_neterr no_ptr_errno as_val_subchain
+//@   uses operr_is_neterr as_val_is_neterr no_ptr_errno as_val_subchain asval_is_sub
 //@   requires !errorsAs(err, "*core.ResponseStartedError")
 //@   ensures err != nil && errorsAs(err, "net.Error") && !errorsIs(err, context.Canceled) && !errorsIs(err, context.DeadlineExceeded) && !errorsIs(err, io.EOF) ==> connErr(res)
 //@   ensures err != nil && !connErr(err) && unwrap(res) == nil ==> !connErr(res)
+//@   ensures !errorsIs(err, core.ErrCircuitOpen) ==> !errorsIs(res, core.ErrCircuitOpen)
 
 // ---- C16: upstream URLs stay on the configured endpoint
 // hasDotSeg(p): some "/"-separated segment of p is "." or ".." (proved equal to containsDotDot).
